@@ -26,6 +26,8 @@ func (c05) Gen(rng *rand.Rand, tier string, k int) *Case {
 	c := genStratCase(rng, tier)
 	if rng.Intn(8) == 0 {
 		c.Shape = ShapeGlitch
+	} else if rng.Intn(12) == 0 {
+		c.Shape = ShapeLateStart
 	}
 	if rng.Intn(12) == 0 {
 		c.Variant = 3 // every non-period parameter (thresholds included) zero
